@@ -19,6 +19,7 @@ from nrel.hive.state.vehicle_state import (
     vehicle_state_ops,
     dispatch_ops,
 )
+from nrel.hive.state.vehicle_state.idle import Idle
 from nrel.hive.state.vehicle_state.servicing_pooling_trip import ServicingPoolingTrip
 from nrel.hive.state.vehicle_state.vehicle_state import (
     VehicleState,
@@ -180,6 +181,11 @@ class DispatchPoolingTrip(VehicleState):
         :param env: the simulation environment
         :return: an exception due to failure or the next_state after finishing a task
         """
+
+        missing = [r for r, _ in self.trip_plan if r not in sim.requests and r not in self.boarded_requests]
+        if missing:
+            # a request of the plan was already picked up or cancelled; go to an Idle state (as DispatchTrip does)
+            return None, Idle.build(self.vehicle_id)
 
         # create servicing state, with first request PICKUP event consumed
         routes = dispatch_ops.create_routes(sim, self.trip_plan)
